@@ -88,34 +88,39 @@ func randSpec(r *rng, knobs bool) (ReSpec, *pat) {
 	p := &corpus[r.n(len(corpus))]
 	s := ReSpec{Pat: p.Pat, Opts: p.Opts}
 	if knobs {
-		switch r.n(6) {
-		case 0:
-			s.Cache = 1
-		case 1:
-			s.Cache = 2
-		case 2:
-			s.Cache = 3
-		case 3:
-			s.Cache = -9
-		}
-		if r.chance(1, 5) {
-			s.CacheB = []int{-9, 3, 8, -1}[r.n(4)]
-		}
-		if r.chance(1, 4) {
-			s.RuneBuf = []int{-9, 1 << 10, 4 << 10, -1}[r.n(4)]
-		}
-		if r.chance(1, 4) {
-			s.ReplBuf = []int{-9, 4 << 10, 16 << 10, -1}[r.n(4)]
-		}
-		if r.chance(1, 6) {
-			s.NoBitmap = true
-		}
+		applyKnobs(r, &s)
 		if r.chance(1, 5) {
 			s.HasLimit = true
 			s.Limit = []int{0, 1, 8, 20, 40, 64, 65, 100, 200, 1000}[r.n(10)]
 		}
 	}
 	return s, p
+}
+
+// applyKnobs randomises the tuning options of a spec (cache and buffer sizes incl. disabled and unlimited, bitmap).
+func applyKnobs(r *rng, s *ReSpec) {
+	switch r.n(6) {
+	case 0:
+		s.Cache = 1
+	case 1:
+		s.Cache = 2
+	case 2:
+		s.Cache = 3
+	case 3:
+		s.Cache = -9
+	}
+	if r.chance(1, 5) {
+		s.CacheB = []int{-9, 3, 8, -1}[r.n(4)]
+	}
+	if r.chance(1, 4) {
+		s.RuneBuf = []int{-9, 1 << 10, 4 << 10, -1, -7}[r.n(5)]
+	}
+	if r.chance(1, 4) {
+		s.ReplBuf = []int{-9, 4 << 10, 16 << 10, -1, -7}[r.n(5)]
+	}
+	if r.chance(1, 6) {
+		s.NoBitmap = true
+	}
 }
 
 // genOp draws one ordinary (untimed) operation on spec index re.
